@@ -295,7 +295,7 @@ pub fn replay(v: &Value) -> Option<Result<(), String>> {
 pub fn run(ctx: &Ctx) -> Result<Ev, String> {
     let cli = cli_path()?;
     let shards = 16usize;
-    let per = (if ctx.thorough { 20_000 } else { 800 } / shards) as u32;
+    let per = (if ctx.thorough { 20_000 } else { 1_600 } / shards) as u32;
     let seed = ctx.seed;
     let infra: std::sync::Mutex<Option<String>> = std::sync::Mutex::new(None);
     let total = par::run_shards("C18", shards, |s| {
